@@ -78,7 +78,10 @@ func StreamJsonAsReaderAndReturn[T any, V any](
 
 	// Creating both ends of the pipe
 	pr, pw := io.Pipe()
+	// The writer goroutine reads the stream, so it must be gone before this function returns
+	writerDone := make(chan struct{})
 	go func() {
+		defer close(writerDone)
 		defer pw.Close()
 
 		first := true
@@ -145,5 +148,7 @@ func StreamJsonAsReaderAndReturn[T any, V any](
 	_ = pr.Close()
 	// and stop the materialization in case it is blocked reading from its source
 	cancelStream()
+	// and wait for the writer goroutine, so that nothing is reading the stream's source after this function returned
+	<-writerDone
 	return ret, err
 }
